@@ -178,8 +178,8 @@ func (c02) Execute(env *Env) {
 			}
 			if os.Getenv("SIM_DEBUG") != "" && p.Backend == "bbolt" {
 				d, _ := DumpFile(w.Path)
-				for b, m := range d {
-					for k, v := range m {
+				for b, m := range detRange(d) {
+					for k, v := range detRange(m) {
 						fmt.Fprintf(os.Stderr, "DBG op%d %s %x = %x\n", i, b, k, v)
 					}
 				}
@@ -253,7 +253,7 @@ func compactQuery(v any) any {
 func stripNulls(x any) any {
 	switch t := x.(type) {
 	case map[string]any:
-		for k, v := range t {
+		for k, v := range detRange(t) {
 			if v == nil {
 				delete(t, k)
 			} else {
